@@ -43,6 +43,21 @@ func VerifHarness_C19_stop() {
 	}
 	runDone, stopDone, runDoneAtStop := false, false, false
 	var mu sync.Mutex
+	// a stop request can also arrive before the run loop has started (a signal during start-up)
+	stopFirst := stopAt == 0 && verifrt.Choose("stop-requested-before-run-starts", 2) == 1
+	stopRequested := int64(0)
+	if stopFirst {
+		stopRequested = verifrt.NowNanos()
+		go func() {
+			node.Stop(ctx)
+			mu.Lock()
+			stopDone = true
+			runDoneAtStop = runDone
+			mu.Unlock()
+		}()
+		verifrt.Yield()
+		verifrt.Reach("C19.stop.before-run")
+	}
 	go func() {
 		node.Run(ctx)
 		mu.Lock()
@@ -55,7 +70,6 @@ func VerifHarness_C19_stop() {
 		return runDone, stopDone
 	}
 	unconf := vkTx(9, []int{5}, true)
-	stopRequested := int64(0)
 	eventsAtStop := -1
 	for tick := 0; tick <= horizon+60; tick++ {
 		if tick == dropAt && tick < stopAt {
@@ -69,7 +83,7 @@ func VerifHarness_C19_stop() {
 		if tick == 12 && w.node.state.IsReady() {
 			w.announceTx(unconf) // unconfirmed transaction traffic
 		}
-		if tick == stopAt {
+		if tick == stopAt && !stopFirst {
 			stopRequested = verifrt.NowNanos()
 			go func() {
 				node.Stop(ctx)
